@@ -166,58 +166,9 @@ def main(tier):
         pprog.load_dir(dh)
         chk.units += [u for u in pprog.units if u not in chk.units]
     argswap.rule(pprog, chk, "C12p", file_filter=("src/Variogram/",), floor_n=4)
-    # C12k: the rank argument of a per-sample Db accessor never receives a loop variable that ranges over the VARIABLES
-    # (`for (iech = 0; iech < nvar; iech++) db->isActive(iech)` visits the first nvar samples only)
-    nk = 0
-    for f in sorted(prog.funcs, key=lambda x: (x.file, x.line)):
-        if f.body is None or "src/Variogram/" not in f.file:
-            continue
-        lb = {}
-        for loop in f.walk():
-            if loop["k"] == "For" and loop["c"][1] is not None:
-                for x in walk(loop["c"][1]):
-                    if x["k"] == "BinOp" and x.get("op") in ("<", "<=") and x["c"][0] is not None and x["c"][0]["k"] == "DeclRefExpr":
-                        lb.setdefault(x["c"][0]["d"], []).append(x["c"][1])
-
-        def var_count(b, depth=0):
-            while b is not None and b["k"] == "Cast":
-                b = b["c"][0]
-            if b is None or depth > 3:
-                return False
-            if b["k"] == "MCall":
-                short = (b.get("callee") or "").split("::")[-1]
-                if short in ("getNVar", "getVariableNumber", "getNVariables"):
-                    return True
-                if short in ("getLocNumber", "getLocatorNumber"):
-                    a = call_args(b)
-                    return bool(a) and a[0] is not None and (a[0].get("q") or show(a[0])) == "ELoc::Z"
-            if b["k"] == "MemberExpr" and b.get("n") in ("_nVar", "_nvar"):
-                return True
-            if b["k"] == "DeclRefExpr" and b.get("dk") == "var":
-                d = single_def(f, b["d"])
-                return d is not None and d is not b and var_count(d, depth + 1)
-            return False
-        for c in f.calls():
-            if c["k"] != "MCall" or not (c.get("cls") or "").startswith("Db"):
-                continue
-            ri = gates.rank_arg_index(prog, c)
-            a = call_args(c)
-            if ri is None or ri >= len(a) or a[ri] is None:
-                continue
-            x = a[ri]
-            while x["k"] == "Cast":
-                x = x["c"][0]
-            if x["k"] != "DeclRefExpr" or x.get("d") not in lb:
-                continue
-            nk += 1
-            bad = all(var_count(b) for b in lb[x["d"]])
-            if bad:
-                chk.analysed(f)
-            chk.ob("C12k", "%s: the sample rank `%s` of %s ranges over the samples" % (f.name, x["n"], (c.get("callee") or "").split("::")[-1]), f.loc(c), not bad,
-                   detail=None if not bad else "`%s` is the variable of a loop bounded by the NUMBER OF VARIABLES and is used as a sample rank: only the first "
-                   "samples are visited (the statistic computed in this loop is wrong)" % x["n"],
-                   key="C12k|%s|%s(%s)" % (f.name, (c.get("callee") or "").split("::")[-1], x["n"]), nontrivial=bad)
-    chk.floor("C12k", nk, 20)
+    # C12k: the rank argument of a per-sample Db accessor comes from a loop over ALL the samples (c05_skip.rank_loop_rule)
+    import c05_skip
+    c05_skip.rank_loop_rule(prog, chk, "C12k", ("src/Variogram/",), 20)
     # C12u: a pair whose value is undefined for one variable is skipped for that variable only (shared rule with C05d)
     import c05_skip
     c05_skip.rule_d(prog, chk, 2, rule="C12u", only_files=("src/Variogram/",))
